@@ -32,12 +32,32 @@ def Backed (s' : State) (qid : Nat) (cfg : Cfg) (c : Content) : Prop :=
   ∃ ps : List Nat, ps.Nodup ∧ getQuorumValue cfg.quorum ≤ ps.length ∧
     (∀ p ∈ ps, (qid, p, c) ∈ s'.returned) ∧ targetMatch cfg c = true
 
-/-- `ok c` is the merge of a split: the reply `op` completed query `q` while it held at least two versions and
-`c` is the (non-empty) sorted union of the transactions of all versions. -/
+/-- `ok c` is the merge of a mergeable split: the reply `op` completed query `q` while it held at least two versions,
+*every* version held is a transaction record, and `c` is the (non-empty) sorted union of the transactions of all
+versions. (The last conjunct is read from `Gen.accMergeNeedsAllTx`: a version of another kind — in particular one
+that reached the quorum — is never dropped in favour of what a single peer returned.) -/
 def Merged (q : Query) (op : Op) (c : Content) : Prop :=
   ∃ p c0 fk, op = .found q.qid p c0 fk ∧ 2 ≤ (addPeer q.results c0 p).1.length ∧
     c = .txs (txUnion ((addPeer q.results c0 p).1.map (·.1))) ∧
-    txUnion ((addPeer q.results c0 p).1.map (·.1)) ≠ []
+    txUnion ((addPeer q.results c0 p).1.map (·.1)) ≠ [] ∧
+    ∀ v ∈ (addPeer q.results c0 p).1.map (·.1), ∃ l, v = Content.txs l
+
+theorem allTx_spec {cs : List Content} (h : allTx cs = true) : ∀ v ∈ cs, ∃ l, v = Content.txs l := by
+  intro v hv
+  unfold allTx at h
+  have := List.all_eq_true.1 h v hv
+  cases v <;> simp [txsOf] at this
+  exact ⟨_, rfl⟩
+
+/-- the guard of the merged-transactions answer (`all_versions_are_transactions && !accumulated_transactions.is_empty()`,
+the first conjunct regenerated as `Gen.accMergeNeedsAllTx`) -/
+theorem merged_guard {cs : List Content}
+    (h : ¬ ((txUnion cs).isEmpty || (accMergeNeedsAllTx && !allTx cs)) = true) :
+    txUnion cs ≠ [] ∧ ∀ v ∈ cs, ∃ l, v = Content.txs l := by
+  simp only [accMergeNeedsAllTx, Bool.true_and, Bool.or_eq_true, Bool.not_eq_true', not_or] at h
+  refine ⟨?_, allTx_spec (by simpa using h.2)⟩
+  intro h0
+  simp [h0] at h
 
 /-- a reply whose record carries a foreign key is answered `ok` only if the same reply under the query's key is -/
 theorem sendCheckedK_ok {cfg : Cfg} {c c' : Content} {k : Bool} (h : sendCheckedK cfg c k = .ok c') :
@@ -73,7 +93,7 @@ theorem ok_has_quorum (ops : List Op) (op : Op) (caller : Nat) (c : Content)
   refine ⟨q, hq, hcaller, ?_⟩
   rcases hcases with ⟨p, c0, fk, hop, hkey, hreach, ho⟩ | ⟨_, ho⟩ | ⟨_, ho⟩ | ⟨_, ho⟩
   · rcases ho with ho | ho
-    · unfold completedOutcome at ho
+    · unfold completedOutcome completedOutcomeWith at ho
       split at ho
       · -- single version
         left
@@ -106,9 +126,9 @@ theorem ok_has_quorum (ops : List Op) (op : Op) (caller : Nat) (c : Content)
           injection ho with hc
           obtain ⟨ps, hmem, _, _⟩ := addPeer_has q.results c0 p
           have hpos : 0 < (addPeer q.results c0 p).1.length := List.length_pos_of_mem hmem
-          refine ⟨p, c0, fk, hop, ?_, hc, ?_⟩
-          · simp at hlen; omega
-          · intro h0; simp [h0] at hne
+          obtain ⟨hne1, hne2⟩ := merged_guard hne
+          refine ⟨p, c0, fk, hop, ?_, hc, hne1, hne2⟩
+          simp at hlen; omega
     · cases ho
   · rcases ho with ho | ho
     · exfalso
@@ -396,16 +416,20 @@ def resultsAt (q : Query) : Op → List (Content × List Nat)
   | .found _ p c _ => (addPeer q.results c p).1
   | _ => q.results
 
-/-- **Split.** When a step answers the callers of a query that holds two or more versions, every caller
-receives the *full* version map with all responders, or the sorted union of the transactions of *all*
-versions, or (terminating events) the specific error — never one arbitrarily picked version. -/
-theorem split_returns_all_or_merge (ops : List Op) (op : Op) (caller : Nat) (o : Outcome)
+/-- **Split (enumeration of the outcomes).** When a step answers the callers of a query that holds two or more versions,
+every caller receives the *full* version map with all responders, or the sorted union of the transactions of *all*
+versions, or (kad error events) `QueryTimeout` / `RecordNotFound` with the versions discarded — never one arbitrarily
+picked version. The clause of the property itself ("the full set or the merge") is `SplitReturnsAllOrMerge` below:
+false of the code for the kad error events (known finding K-d5), proved for every other step
+(`split_returns_all_or_merge_partial`). -/
+theorem split_returns_all_or_merge_or_error (ops : List Op) (op : Op) (caller : Nat) (o : Outcome)
     (h : (caller, o) ∈ (step (run ops) op).2.deliveries) :
     ∃ q ∈ (run ops).pending, caller ∈ q.senders ∧
       (2 ≤ (resultsAt q op).length →
         o = .split (resultsAt q op) ∨
         (o = .ok (.txs (txUnion ((resultsAt q op).map (·.1)))) ∧ txUnion ((resultsAt q op).map (·.1)) ≠ []) ∨
-        o = .timeout ∨ o = .notFound ∨ o = .closed) := by
+        (o = .timeout ∧ op = .timeout q.qid) ∨
+        (o = .notFound ∧ (op = .notFound q.qid ∨ op = .quorumFailed q.qid)) ∨ o = .closed) := by
   obtain ⟨q, hq, hcaller, hcases⟩ := step_deliveries h
   refine ⟨q, hq, hcaller, ?_⟩
   intro hlen
@@ -413,7 +437,7 @@ theorem split_returns_all_or_merge (ops : List Op) (op : Op) (caller : Nat) (o :
   · subst hop
     simp only [resultsAt] at hlen ⊢
     rcases ho with ho | ho
-    · unfold completedOutcome at ho
+    · unfold completedOutcome completedOutcomeWith at ho
       split at ho
       · rename_i h1; simp at h1; omega
       · dsimp only at ho
@@ -421,7 +445,7 @@ theorem split_returns_all_or_merge (ops : List Op) (op : Op) (caller : Nat) (o :
         · left; exact ho
         · rename_i hne
           right; left
-          exact ⟨ho, by intro h0; simp [h0] at hne⟩
+          exact ⟨ho, (merged_guard hne).1⟩
     · right; right; right; right; exact ho
   · subst hop
     simp only [resultsAt] at hlen ⊢
@@ -435,12 +459,13 @@ theorem split_returns_all_or_merge (ops : List Op) (op : Op) (caller : Nat) (o :
     · right; right; right; right; exact ho
   · right; right; right
     rcases ho with ho | ho
-    · left; exact ho
+    · left; exact ⟨ho, hop⟩
     · right; exact ho
   · subst hop
     simp only [resultsAt] at hlen ⊢
     rcases ho with ho | ho
     · right; right; left
+      refine ⟨?_, trivial⟩
       rw [ho]; unfold timeoutOutcome
       split
       · rename_i hres; rw [hres] at hlen; simp at hlen
@@ -513,7 +538,7 @@ theorem ok_has_quorum_for_requested_key : OkHasQuorumForRequestedKey := by
   subst hqq
   rcases hcases with ⟨p, c0, fk, hop, hkey, hreach, ho⟩ | ⟨_, ho⟩ | ⟨_, ho⟩ | ⟨_, ho⟩
   · rcases ho with ho | ho
-    · unfold completedOutcome at ho
+    · unfold completedOutcome completedOutcomeWith at ho
       split at ho
       · left
         have ho := (sendCheckedK_ok ho.symm).symm
@@ -543,9 +568,9 @@ theorem ok_has_quorum_for_requested_key : OkHasQuorumForRequestedKey := by
           injection ho with hc
           obtain ⟨ps, hmem, _, _⟩ := addPeer_has q'.results c0 p
           have hpos : 0 < (addPeer q'.results c0 p).1.length := List.length_pos_of_mem hmem
-          refine ⟨p, c0, fk, hop, ?_, hc, ?_⟩
-          · simp at hlen; omega
-          · intro h0; simp [h0] at hne
+          obtain ⟨hne1, hne2⟩ := merged_guard hne
+          refine ⟨p, c0, fk, hop, ?_, hc, hne1, hne2⟩
+          simp at hlen; omega
     · cases ho
   · exfalso
     rcases ho with ho | ho
@@ -761,6 +786,149 @@ theorem value_or_specific_error : ValueOrSpecificError := by
   subst ho
   exact step_no_closed h
 
+/-! ### "the full set of versions or their merge" (full clause), and where the code falls short of it -/
+
+/-- **Full clause.** Whenever the callers of a query that holds two or more versions are answered, they receive the
+full version map or the transaction union of all versions. -/
+def SplitReturnsAllOrMerge : Prop :=
+  ∀ (ops : List Op) (op : Op) (caller : Nat) (o : Outcome),
+    (caller, o) ∈ (step (run ops) op).2.deliveries →
+    ∃ q ∈ (run ops).pending, caller ∈ q.senders ∧
+      (2 ≤ (resultsAt q op).length →
+        o = .split (resultsAt q op) ∨
+        (o = .ok (.txs (txUnion ((resultsAt q op).map (·.1)))) ∧ txUnion ((resultsAt q op).map (·.1)) ≠ []))
+
+def kd5History : List Op :=
+  [.get 0 0 { quorum := .n 2, target := none, isReg := false },
+   .found 0 1 (.hdr .chunk 0) none, .found 0 2 (.hdr .chunk 1) none]
+
+/-- **Witness (K-d5).** Two peers returned differing content, then kad reports a timeout (or NotFound / QuorumFailed):
+the caller receives the bare error, the two versions held are discarded (kad.rs: "todo: … Why don't we return a split
+record error"). -/
+theorem timeout_discards_versions_witness :
+    (step (run kd5History) (.timeout 0)).2.deliveries = [(0, .timeout)] ∧
+    (step (run kd5History) (.notFound 0)).2.deliveries = [(0, .notFound)] ∧
+    (run kd5History).pending = [{ qid := 0, key := 0, senders := [0], results := [(.hdr .chunk 0, [1]), (.hdr .chunk 1, [2])], cfg := { quorum := .n 2, target := none, isReg := false } }] := by
+  decide
+
+theorem not_splitReturnsAllOrMerge : ¬ SplitReturnsAllOrMerge := by
+  intro h
+  obtain ⟨hd, _, hp⟩ := timeout_discards_versions_witness
+  obtain ⟨q, hq, _, hcl⟩ := h kd5History (.timeout 0) 0 .timeout (by rw [hd]; simp)
+  rw [hp] at hq
+  simp at hq; subst hq
+  rcases hcl (by decide) with h1 | ⟨h1, _⟩ <;> cases h1
+
+/-- **Partial (K-d5).** For every step other than a kad error event (`Timeout`, `NotFound`, `QuorumFailed`) — i.e. for the
+reply that completes a quorum and for `FinishedWithNoAdditionalRecord` — the clause holds at full strength. -/
+theorem split_returns_all_or_merge_partial (ops : List Op) (op : Op) (caller : Nat) (o : Outcome)
+    (hterm : ∀ qid, op ≠ .timeout qid ∧ op ≠ .notFound qid ∧ op ≠ .quorumFailed qid)
+    (h : (caller, o) ∈ (step (run ops) op).2.deliveries) :
+    ∃ q ∈ (run ops).pending, caller ∈ q.senders ∧
+      (2 ≤ (resultsAt q op).length →
+        o = .split (resultsAt q op) ∨
+        (o = .ok (.txs (txUnion ((resultsAt q op).map (·.1)))) ∧ txUnion ((resultsAt q op).map (·.1)) ≠ [])) := by
+  have hnc : o ≠ .closed := fun hc => step_no_closed (hc ▸ h)
+  obtain ⟨q, hq, hcaller, hall⟩ := split_returns_all_or_merge_or_error ops op caller o h
+  refine ⟨q, hq, hcaller, ?_⟩
+  intro hlen
+  rcases hall hlen with h1 | h1 | ⟨_, h1⟩ | ⟨_, h1 | h1⟩ | h1
+  · exact Or.inl h1
+  · exact Or.inr h1
+  · exact absurd h1 (hterm q.qid).1
+  · exact absurd h1 (hterm q.qid).2.1
+  · exact absurd h1 (hterm q.qid).2.2
+  · exact absurd h1 hnc
+
+/-! ## Observe point "result of `Network::get_record_from_network`" -/
+
+/-- **Full clause at the second observe point.** An `Ok` of `get_record_from_network` equals the caller's expected value
+when one was given. -/
+def NetOkEqualsTarget : Prop :=
+  ∀ (ord : List Content) (cfg : Cfg) (retries : Nat) (atts : List Attempt) (c : Content),
+    cfgWf cfg = true → netLoop ord cfg retries atts = .ok c → targetMatch cfg c = true
+
+/-- **Witness (K-d4).** The caller expects the register `r0g.0` (`is_register`); one holder returned it, another one the
+same register with op 1 instead: the attempt ends in `SplitRecord`, `handle_split_record_error` merges the two and
+`get_record_from_network` returns `Ok(r0g.0.1)` — `does_target_match` is never consulted on a merged record (lib.rs
+"verified to be stored" relies on this `Ok`). -/
+theorem net_split_merge_skips_target_witness :
+    netLoop [.reg 0 true [0], .reg 0 true [1]] { quorum := .n 2, target := some (.reg 0 true [0]), isReg := true } 0
+      [{ replies := [(1, .reg 0 true [0]), (2, .reg 0 true [1])], term := .finished }] = .ok (.reg 0 true [0, 1]) ∧
+    targetMatch { quorum := .n 2, target := some (.reg 0 true [0]), isReg := true } (.reg 0 true [0, 1]) = false := by
+  decide
+
+theorem not_netOkEqualsTarget : ¬ NetOkEqualsTarget := by
+  intro h
+  have := h _ _ _ _ _ (by decide) net_split_merge_skips_target_witness.1
+  rw [net_split_merge_skips_target_witness.2] at this
+  cases this
+
+/-- **Partial (K-d4).** An `Ok c` of `get_record_from_network` is the `Ok c` one attempt put on the caller's channel (the
+caller is that query's first and only caller, so `ok_has_quorum` / `ok_equals_target` apply with its own cfg) — or the
+result of `handle_split_record_error` on the `SplitRecord` of one attempt (`merge_*` theorems; not compared with the
+target). Nothing else is ever returned as `Ok`, whatever the number of retries. -/
+theorem netTryOf_ok {ord : List Content} {o : Outcome} {c : Content} (h : netTryOf ord o = .inl (.ok c)) :
+    o = .ok c ∨ ∃ m, o = .split m ∧ mergeSplitMap (hashMapOf ord m) = some c := by
+  cases o with
+  | ok c' => simp [netTryOf] at h; exact Or.inl (by rw [h])
+  | split m =>
+    simp only [netTryOf] at h
+    cases hm : mergeSplitMap (hashMapOf ord m) with
+    | none => simp [hm] at h
+    | some r => simp [hm] at h; exact Or.inr ⟨m, rfl, by rw [← h]; exact hm⟩
+  | notEnough _ _ _ => simp [netTryOf] at h
+  | mismatch _ => simp [netTryOf] at h
+  | notFound => simp [netTryOf] at h
+  | timeout => simp [netTryOf] at h
+  | closed => simp [netTryOf] at h
+
+theorem netTry_ok {ord : List Content} {cfg : Cfg} {atts : List Attempt} {c : Content}
+    (h : netTry ord cfg atts = .inl (.ok c)) :
+    ∃ a, attemptOutcome cfg a = some (.ok c) ∨
+      ∃ m, attemptOutcome cfg a = some (.split m) ∧ mergeSplitMap (hashMapOf ord m) = some c := by
+  unfold netTry at h
+  cases ha : attemptOutcome cfg (firstAttempt atts) with
+  | none => rw [ha] at h; simp [netTryOf] at h
+  | some o =>
+    rw [ha] at h
+    rcases netTryOf_ok h with h1 | ⟨m, h1, h2⟩
+    · exact ⟨_, Or.inl (by rw [ha]; exact congrArg some h1)⟩
+    · exact ⟨_, Or.inr ⟨m, by rw [ha]; exact congrArg some h1, h2⟩⟩
+
+theorem net_ok_partial (ord : List Content) (cfg : Cfg) (retries : Nat) :
+    ∀ (atts : List Attempt) (c : Content), netLoop ord cfg retries atts = .ok c →
+      ∃ a, attemptOutcome cfg a = some (.ok c) ∨
+        ∃ m, attemptOutcome cfg a = some (.split m) ∧ mergeSplitMap (hashMapOf ord m) = some c := by
+  induction retries with
+  | zero =>
+    intro atts c h
+    simp only [netLoop] at h
+    split at h
+    · rename_i r hr; subst h; exact netTry_ok hr
+    · cases h
+  | succ n ih =>
+    intro atts c h
+    simp only [netLoop] at h
+    split at h
+    · rename_i r hr; subst h; exact netTry_ok hr
+    · exact ih _ _ h
+
+-- the errors are retried while the back-off lasts; a dropped channel is not
+example : netLoop [] { quorum := .n 2, target := none, isReg := false } 1
+    [{ replies := [(1, .hdr .chunk 0)], term := .timeout }, { replies := [(1, .hdr .chunk 0), (2, .hdr .chunk 0)], term := .finished }]
+    = .ok (.hdr .chunk 0) := by decide
+example : netLoop [] { quorum := .n 2, target := none, isReg := false } 0
+    [{ replies := [(1, .hdr .chunk 0)], term := .timeout }] = .err .timeout := by decide
+
+/-- **Observation (K-d6).** `does_target_match` compares whole records: when the record handed over — the completing
+reply's own — carries a publisher or an expiry set by the holder, a value byte-identical to a plain target is answered
+`RecordDoesNotMatch` (versions are keyed by the value hash alone, so such a reply counts towards the quorum). -/
+theorem holder_meta_turns_identical_value_into_mismatch (q : Quorum) (c : Content) :
+    sendCheckedM { quorum := q, target := some c, isReg := false } c true = .mismatch c ∧
+    sendCheckedM { quorum := q, target := some c, isReg := false } c false = .ok c := by
+  simp [sendCheckedM, sendChecked, targetMatch, targetChecked]
+
 theorem delivered_never_closed_aux (ops : List Op) : ∀ s : State, (∀ d ∈ s.delivered, d.2 ≠ Outcome.closed) →
     ∀ d ∈ (ops.foldl (fun s op => (step s op).1) s).delivered, d.2 ≠ Outcome.closed := by
   induction ops with
@@ -858,6 +1026,54 @@ example : (step (run [.get 0 0 { quorum := .n 2, target := none, isReg := false 
     = [(0, .ok (.txs [0, 1]))] := by decide
 example : mergeSplit [.txs [1], .txs [0]] = some (.txs [0, 1]) := by decide
 
+/-! ### a version that is no transaction record is never dropped from a merged `ok`
+
+Former defect (repaired in /repo, `Gen.accMergeNeedsAllTx`): once the map held several versions, the version that reached
+the quorum was answered with `Ok(union of whatever decodes as transactions)`; versions of another kind contributed
+nothing. Three peers agreeing on a chunk and ONE peer returning a transaction record gave the caller that single
+peer's transaction as `Ok`, the target comparison skipped. -/
+
+/-- Full clause for the split branch: an `Ok(union)` is answered only for a split all of whose versions are
+transaction records. -/
+def MergeOnlyOfTransactionSplit (needAll : Bool) : Prop :=
+  ∀ (cfg : Cfg) (rs : List (Content × List Nat)) (c : Content) (k : Bool) (u : List Nat),
+    rs.length ≠ 1 → completedOutcomeWith needAll cfg rs c k = .ok (.txs u) →
+    ∀ v ∈ rs.map (·.1), ∃ l, v = Content.txs l
+
+/-- **The repaired code** (the flag is the regenerated one). -/
+theorem merge_only_of_transaction_split : MergeOnlyOfTransactionSplit accMergeNeedsAllTx := by
+  intro cfg rs c k u hlen h
+  unfold completedOutcomeWith at h
+  split at h
+  · rename_i h1; simp at h1; exact absurd h1 hlen
+  · dsimp only at h
+    split at h
+    · cases h
+    · rename_i hne
+      exact (merged_guard hne).2
+
+/-- **Witness (former defect, fixed).** Quorum majority, expected value the chunk `hc0`; peer 1 returned the transaction
+record `t5`, peers 2, 3, 4 the chunk: the old shape answers `ok t5` — one peer's content, not the target; the repaired
+code hands over the whole split. -/
+theorem old_merge_drops_quorum_version_witness :
+    completedOutcomeWith false { quorum := .majority, target := some (.hdr .chunk 0), isReg := false }
+      [(.txs [10], [1]), (.hdr .chunk 0, [2, 3, 4])] (.hdr .chunk 0) true = .ok (.txs [10]) ∧
+    completedOutcome { quorum := .majority, target := some (.hdr .chunk 0), isReg := false }
+      [(.txs [10], [1]), (.hdr .chunk 0, [2, 3, 4])] (.hdr .chunk 0) true
+      = .split [(.txs [10], [1]), (.hdr .chunk 0, [2, 3, 4])] := by decide
+
+theorem not_mergeOnlyOfTransactionSplit_old : ¬ MergeOnlyOfTransactionSplit false := by
+  intro h
+  have := h _ _ _ _ _ (by decide) old_merge_drops_quorum_version_witness.1 (.hdr .chunk 0) (by decide)
+  obtain ⟨l, hl⟩ := this
+  cases hl
+
+-- the history of the former defect on the repaired model: the caller receives the full set of versions
+example : (step (run [.get 0 0 { quorum := .majority, target := some (.hdr .chunk 0), isReg := false },
+      .found 0 1 (.txs [10]) none, .found 0 2 (.hdr .chunk 0) none, .found 0 3 (.hdr .chunk 0) none])
+      (.found 0 4 (.hdr .chunk 0) none)).2.deliveries
+    = [(0, .split [(.txs [10], [1]), (.hdr .chunk 0, [2, 3, 4])])] := by decide
+
 /-! ## `handle_split_record_error`: the merge of a split
 
 `order` is the iteration order of the result map (any duplicate-free order is a legal choice of the
@@ -945,6 +1161,39 @@ theorem merge_reg_is_union {order : List Content} {b : Nat} {s : Bool} {ops : Li
         simp only [] at h
         have := (bestPad_spec h).2.1
         simp [padValid] at this
+
+theorem regValid_spec {r : Content} (h : regValid r = true) :
+    regAddr (regBase r) = mergeKeyRegAddr ∧ regVerified r = true := by
+  cases r <;> simp [regValid, splitRegChecksKey] at h
+  exact ⟨by simpa [regBase] using h.1, h.2⟩
+
+/-- **A register of another address is ignored.** The register handed back lives at the key being read, and every one
+of its ops comes from a verified register *of that address* with the same base: a validly self-signed register of
+another address that a holder slipped into the split neither dictates the base nor contributes an op — wherever its
+content hash places it in the visit order. (Read from `Gen.splitRegChecksKey`, regenerated from the `Register` arm.) -/
+theorem split_foreign_register_ignored {order : List Content} {b : Nat} {s : Bool} {ops : List Nat}
+    (h : mergeSplit order = some (.reg b s ops)) :
+    regAddr b = mergeKeyRegAddr ∧
+    ∀ o ∈ ops, ∃ r ∈ order, regAddr (regBase r) = mergeKeyRegAddr ∧ regVerified r = true ∧ regBase r = b ∧ o ∈ regOps r := by
+  obtain ⟨_, _, ⟨r0, _, hv0, hb0⟩, hops⟩ := merge_reg_is_union h
+  refine ⟨by rw [← hb0]; exact (regValid_spec hv0).1, ?_⟩
+  intro o ho
+  obtain ⟨r, hr, hv, hb, hor⟩ := (hops o).1 ho
+  exact ⟨r, hr, (regValid_spec hv).1, (regValid_spec hv).2, hb, hor⟩
+
+/-- a register of another address is not collected, whatever else is true of it -/
+theorem foreign_register_not_collected (b : Nat) (sg : Bool) (ops : List Nat) (hb : regAddr b ≠ mergeKeyRegAddr) :
+    regValid (.reg b sg ops) = false := by
+  simp [regValid, splitRegChecksKey, hb]
+
+/-- **Witness (former defect, fixed).** The split holds a verified register of ANOTHER address (base 1) and two authentic
+versions (base 0); the foreign one is visited first (lowest content hash). Without the address check it dictates the
+base, the authentic copies fail `merge` and are dropped: the caller receives a register of the wrong address. The
+repaired code returns the union of the authentic copies. -/
+theorem unchecked_foreign_register_dictates_witness :
+    mergeRegsUnchecked [.reg 1 true [1], .reg 0 true [0], .reg 0 true [2]] = some (.reg 1 true [1]) ∧
+    regAddr 1 ≠ mergeKeyRegAddr ∧
+    mergeSplit [.reg 1 true [1], .reg 0 true [0], .reg 0 true [2]] = some (.reg 0 true [0, 2]) := by decide
 
 /-- **Scratchpads.** A scratchpad result is one of the versions, validly signed and living at the key being read
 (`padValid`: `is_valid()` and, with `Gen.splitPadChecksKey`, its own address is the record key), and no such version has
@@ -1094,8 +1343,8 @@ theorem unordered_pad_pick_witness :
 /-- **Witness (former finding, fixed: several bases).** Two verified registers with different base registers: the first one visited
 dictates the base, the other one is dropped. -/
 theorem unordered_reg_base_witness :
-    mergeSplitUnordered [(0, .reg 0 true [1]), (1, .reg 1 true [2])] = some (.reg 0 true [1]) ∧
-    mergeSplitUnordered [(1, .reg 1 true [2]), (0, .reg 0 true [1])] = some (.reg 1 true [2]) := by decide
+    mergeSplitUnordered [(0, .reg 0 true [1]), (1, .reg 2 true [2])] = some (.reg 0 true [1]) ∧
+    mergeSplitUnordered [(1, .reg 2 true [2]), (0, .reg 0 true [1])] = some (.reg 2 true [2]) := by decide
 
 /-- Visiting in the map's own order is *not* deterministic (both witnesses): the sort is what the clause needs. -/
 theorem not_mergeDeterministic_unordered : ¬ MergeDeterministic mergeSplitUnordered := by
@@ -1109,7 +1358,7 @@ theorem not_mergeDeterministic_unordered_reg :
     ¬ ∀ m m' : List (Nat × Content), m.Perm m' → (m.map (·.1)).Nodup →
         (∀ e ∈ m, kindOf e.2 = some .reg) → mergeSplitUnordered m = mergeSplitUnordered m' := by
   intro h
-  have e := h [(0, .reg 0 true [1]), (1, .reg 1 true [2])] [(1, .reg 1 true [2]), (0, .reg 0 true [1])]
+  have e := h [(0, .reg 0 true [1]), (1, .reg 2 true [2])] [(1, .reg 2 true [2]), (0, .reg 0 true [1])]
     (List.Perm.swap _ _ _) (by decide) (by decide)
   rw [unordered_reg_base_witness.1, unordered_reg_base_witness.2] at e
   cases e
@@ -1117,8 +1366,8 @@ theorem not_mergeDeterministic_unordered_reg :
 -- the repaired code on the two witnesses: the content hash decides, whatever the listing
 example : mergeSplitMap [(7, .pad 0 2 0 true), (3, .pad 0 2 1 true)] = some (.pad 0 2 1 true) ∧
     mergeSplitMap [(3, .pad 0 2 1 true), (7, .pad 0 2 0 true)] = some (.pad 0 2 1 true) := by decide
-example : mergeSplitMap [(0, .reg 0 true [1]), (1, .reg 1 true [2])] = some (.reg 0 true [1]) ∧
-    mergeSplitMap [(1, .reg 1 true [2]), (0, .reg 0 true [1])] = some (.reg 0 true [1]) := by decide
+example : mergeSplitMap [(0, .reg 0 true [1]), (1, .reg 2 true [2])] = some (.reg 0 true [1]) ∧
+    mergeSplitMap [(1, .reg 2 true [2]), (0, .reg 0 true [1])] = some (.reg 0 true [1]) := by decide
 
 /-- all versions carry a decodable header of kind `k` -/
 def AllKind (k : Kind) (order : List Content) : Prop := ∀ c ∈ order, kindOf c = some k
@@ -1293,7 +1542,7 @@ end SafeNet.Props.C05
 #print axioms SafeNet.Props.C05.ok_matches_target_partial
 #print axioms SafeNet.Props.C05.targetMatch_iff_equals
 #print axioms SafeNet.Props.C05.ok_equals_target
-#print axioms SafeNet.Props.C05.split_returns_all_or_merge
+#print axioms SafeNet.Props.C05.split_returns_all_or_merge_or_error
 #print axioms SafeNet.Props.C05.foreign_key_reply_ignored
 #print axioms SafeNet.Props.C05.ok_carries_requested_key
 #print axioms SafeNet.Props.C05.ok_has_quorum_for_requested_key
@@ -1320,3 +1569,16 @@ end SafeNet.Props.C05
 #print axioms SafeNet.Props.C05.not_mergeDeterministic_unordered
 #print axioms SafeNet.Props.C05.not_mergeDeterministic_unordered_reg
 #print axioms SafeNet.Props.C05.merge_order_independent_partial
+#print axioms SafeNet.Props.C05.timeout_discards_versions_witness
+#print axioms SafeNet.Props.C05.not_splitReturnsAllOrMerge
+#print axioms SafeNet.Props.C05.split_returns_all_or_merge_partial
+#print axioms SafeNet.Props.C05.net_split_merge_skips_target_witness
+#print axioms SafeNet.Props.C05.not_netOkEqualsTarget
+#print axioms SafeNet.Props.C05.net_ok_partial
+#print axioms SafeNet.Props.C05.holder_meta_turns_identical_value_into_mismatch
+#print axioms SafeNet.Props.C05.merge_only_of_transaction_split
+#print axioms SafeNet.Props.C05.old_merge_drops_quorum_version_witness
+#print axioms SafeNet.Props.C05.not_mergeOnlyOfTransactionSplit_old
+#print axioms SafeNet.Props.C05.split_foreign_register_ignored
+#print axioms SafeNet.Props.C05.foreign_register_not_collected
+#print axioms SafeNet.Props.C05.unchecked_foreign_register_dictates_witness
